@@ -459,6 +459,13 @@ Qed.
 Lemma ents_NoDup s : Inv s -> NoDup (ents s).
 Proof. intros HI. apply NoDup_alt. intros i j e Hi Hj. by eapply ents_inj. Qed.
 
+Lemma forallb_cols_len n m (cs : list (list val)) : Forall (fun c => length c = m) cs -> n <= m ->
+  forallb (fun c => n <=? length c) cs = true.
+Proof.
+  intros Hcs Hn. induction Hcs as [|c cs Hc Hcs IH]; [done|]. cbn [forallb]. rewrite IH, andb_true_r.
+  apply Nat.leb_le. lia.
+Qed.
+
 (* ---------------------------------------------------------------- swap_remove *)
 
 Lemma swap_remove_spec {A} (l : list A) index n x y : length l = n -> index < n ->
@@ -545,7 +552,7 @@ Proof.
   destruct (lookup_lt_is_Some_2 (ents s) (len s - 1) ltac:(lia)) as [le Hlast].
   destruct (fwd' s (len s - 1) le HI Hlast) as (Hsl & Hfl & Hcl & _ & Hhl).
   destruct (swap_remove_cols_spec (cols s) d (len s) Hlc Hdl) as (row & Hrow & Hrl & Hswc).
-  unfold last_ent, row_of. rewrite Hlast, Hrow. cbn [default].
+  unfold last_ent, row_of. rewrite Hlast, Hrow. cbn [default from_option id].
   (* DEvent *)
   unfold exec_dstep at 1. ssimpl.
   assert (Hev : forall (k : storage * dlocals -> unit -> res (storage * dlocals) unit) l,
@@ -600,7 +607,7 @@ Proof.
   destruct (fwd' s d e HI Hd) as (Htsl & Hfe & Hsic & Hdlt & Hhe). rewrite Hsi in *.
   pose proof HI as [Haid Hcap (A1 & A2 & A3) Hls Hle Hlc Hlen Hf Hb (fl & Hch & Hnd & Hfl) (Hv & Hsv)].
   destruct (lookup_lt_is_Some_2 (ents s) (len s - 1) ltac:(lia)) as [le Hlast].
-  unfold last_ent. rewrite Hlast. cbn [default].
+  unfold last_ent. rewrite Hlast. cbn [default from_option id].
   destruct (fwd' s (len s - 1) le HI Hlast) as (Hlsl & Hfle & Hlc' & _ & Hhl).
   assert (Hls_lt : eslot le < length (slots s)) by lia.
   assert (Hsi_lt : si < length (slots s)) by lia.
